@@ -1176,6 +1176,9 @@ class SyncObj(object):
             self.__raftNextIndex[node] = self.__getCurrentLogIndex() + 1
             self.__raftMatchIndex[node] = 0
             self.__lastResponseTime[node] = monotonicTime()
+            # A snapshot transfer begun in an earlier term of leadership is not continued: the receiver
+            # may have ignored pieces sent then, it is sent the snapshot from its beginning again.
+            self.__serializer.cancelTransmisstion(node)
 
         # No-op command after leader election.
         idx, term = self.__getCurrentLogIndex() + 1, self.__raftCurrentTerm
